@@ -342,7 +342,8 @@ impl Sys {
                 f.identifier.clone(),
                 json!({"owner": self.sym_of(f.owner.as_str()), "lp": self.dsym(&f.lp_denom), "denom": self.dsym(&f.farm_asset.denom),
                        "amount": u(f.farm_asset.amount), "claimed": u(f.claimed_amount), "rate": u(f.emission_rate),
-                       "start": f.start_epoch, "end": f.preliminary_end_epoch}),
+                       // TLC integers are 32 bit: epochs beyond 10^9 are reported as 10^9 (saturating projection)
+                       "start": f.start_epoch.min(1_000_000_000), "end": f.preliminary_end_epoch.min(1_000_000_000)}),
             );
         }
         let mut pj = Map::new();
